@@ -363,3 +363,47 @@ M("C20", "netbios-decode-shift", "utils.py", "        a = (data[i] - offset) << 
 T("C20", "twin-decoder-or", "utils.py", "        barray.append(a + b)", "        barray.append(a | b)")
 T("C20", "twin-fullmatch", "utils.py", "re.match(\"^/[A-Za-z0-9]{4}$\", uri)", "re.fullmatch(\"/[A-Za-z0-9]{4}\", uri)")
 M("C16", "qsl-bytes-regression", "c2.py", "    query = parse_qsl(result.query.decode(\"ascii\"), encoding=\"latin-1\")\n    params = {key.encode(\"latin-1\"): value.encode(\"latin-1\") for key, value in query}", "    params = dict(parse_qsl(result.query))", "C16.R")
+
+# =============================================================================== round-2 rules
+M("C02", "convert-only-nonempty", "beacon.py", "            if parse or pretty:\n", "            if (parse or pretty) and setting.length:\n", "C02.R2")
+T("C02", "twin-flags-swapped", "beacon.py", "            if parse or pretty:\n", "            if pretty or parse:\n")
+M("C03", "gargle-drop-zero-start", "beacon.py", "        if (start, end) != (0, 0):", "        if start:", "C03.R9")
+M("C03", "gargle-swapped-text", "beacon.py", "            value = f\"0x{start:x}-0x{end:x}\"", "            value = f\"0x{end:x}-0x{start:x}\"", "C03.R9")
+T("C03", "twin-gargle-or", "beacon.py", "        if (start, end) != (0, 0):", "        if start != 0 or end != 0:")
+T("C03", "twin-gargle-not-and", "beacon.py", "        if (start, end) != (0, 0):", "        if not (start == 0 and end == 0):")
+T("C03", "twin-gargle-continue", "beacon.py", "        if (start, end) != (0, 0):\n            value = f\"0x{start:x}-0x{end:x}\"\n            addresses.append(value)",
+  "        if (0, 0) == (start, end):\n            continue\n        value = f\"0x{start:x}-0x{end:x}\"\n        addresses.append(value)")
+M("C05", "packet-default-iv", "c2.py", "    return decrypt_data(packet.ciphertext, aes_key, iv)", "    return decrypt_data(packet.ciphertext, aes_key, BeaconKeys.DEFAULT_AES_IV)", "C05.R6")
+T("C05", "twin-forward-by-keyword", "c2.py", "    return decrypt_data(packet.ciphertext, aes_key, iv)", "    return decrypt_data(packet.ciphertext, iv=iv, aes_key=aes_key)")
+M("C07", "cache-after-yield", "c2.py", "            yield metadata\n", "            yield metadata\n            self.metadata_cache[c2data.metadata] = metadata\n", "C07.R4")
+M("C09", "validate-within-search-range", "xordecode.py", "pe.find_mz_offset(cast(BinaryIO, xf))", "pe.find_mz_offset(cast(BinaryIO, xf), 0, maxrange)", "C09.R4")
+T("C09", "twin-explicit-default-range", "xordecode.py", "pe.find_mz_offset(cast(BinaryIO, xf))", "pe.find_mz_offset(cast(BinaryIO, xf), maxrange=1024)")
+M("C12", "x-digits-before-check", "c2profile.py",
+  "                    if not it.has_next(2):\n                        raise ValueError(\"not enough remaining chars for \\\\xXX\")\n                    hexstr = \"\".join(it.next(2))",
+  "                    hexstr = \"\".join(it.next(2))\n                    if len(hexstr) != 2:\n                        raise ValueError(\"not enough remaining chars for \\\\xXX\")", "C12.R2")
+M("C13", "builder-drops-print", "c2profile.py", "            elif option in (\"print\", \"uri-append\", \"uri_append\"):", "            elif option in (\"uri-append\", \"uri_append\"):", "C13.R9")
+T("C13", "twin-terminators-reordered", "c2profile.py", "            elif option in (\"print\", \"uri-append\", \"uri_append\"):", "            elif option in (\"uri_append\", \"print\", \"uri-append\"):")
+M("C14", "shared-empty-request", "c2.py", "", "", "C14.R6",
+  edits=[("c2.py", "class HttpDataTransform:\n", "_NO_REQUEST = HttpRequest(method=b\"\", uri=b\"\", body=b\"\", params={}, headers={})\n\n\nclass HttpDataTransform:\n"),
+         ("c2.py", "        request = request or HttpRequest(method=b\"\", uri=b\"\", body=b\"\", params={}, headers={})", "        request = request or _NO_REQUEST")])
+T("C14", "twin-empty-request-dict-calls", "c2.py", "        request = request or HttpRequest(method=b\"\", uri=b\"\", body=b\"\", params={}, headers={})",
+  "        request = request or HttpRequest(method=b\"\", uri=b\"\", body=b\"\", params=dict(), headers=dict())")
+M("C14", "memoised-list-result", "beacon.py", "def parse_gargle(data: bytes) -> list:", "@functools.lru_cache(maxsize=64)\ndef parse_gargle(data: bytes) -> list:", "C14.R6")
+T("C14", "twin-memoised-scalar", "beacon.py", "def null_terminated_str(", "@functools.lru_cache(maxsize=64)\ndef null_terminated_str(")
+M("C16", "unquote-before-split", "c2.py", "", "", "C16.R7",
+  edits=[("c2.py", "from urllib.parse import parse_qsl, urlparse", "from urllib.parse import parse_qsl, unquote_to_bytes, urlparse"),
+         ("c2.py", "    uri = uri.decode(\"ascii\", errors=\"ignore\").encode()", "    uri = unquote_to_bytes(uri).decode(\"ascii\", errors=\"ignore\").encode()")])
+M("C16", "memoised-parser", "c2.py", "", "", "C16.R8",
+  edits=[("c2.py", "import base64\n", "import base64\nimport functools\n"), ("c2.py", "def parse_raw_http(data: bytes)", "@functools.lru_cache(maxsize=32)\ndef parse_raw_http(data: bytes)")])
+M("C17", "small-ngram-chunks", "guardrails.py", "functools.partial(fh.read, io.DEFAULT_BUFFER_SIZE)", "functools.partial(fh.read, 1024)", "C17.R5")
+T("C17", "twin-chunk-is-area", "guardrails.py", "functools.partial(fh.read, io.DEFAULT_BUFFER_SIZE)", "functools.partial(fh.read, BEACON_CONFIG_PATCH_SIZE)")
+M("C18", "require-mz-magic", "pe.py",
+  "            if mz.e_lfanew > 0 and mz.e_lfanew < maxrange:\n                fh.seek(start_offset + offset + 4 + mz.e_lfanew)\n                image = pestruct.IMAGE_FILE_HEADER(fh)\n                if image.Machine in (",
+  "            if mz.e_magic == 0x5A4D and mz.e_lfanew > 0 and mz.e_lfanew < maxrange:\n                fh.seek(start_offset + offset + 4 + mz.e_lfanew)\n                image = pestruct.IMAGE_FILE_HEADER(fh)\n                if image.Machine in (",
+  "C18.R3")
+M("C19", "method-handler-after-fallback", "client.py", "", "", "C19.R2",
+  edits=[("client.py", "        # if there is a \"on_command\" handler, add it to the list\n        if on_handler:\n            handlers.append(on_handler)\n\n", ""),
+         ("client.py", "                handlers.append(on_catch_all)\n        return handlers", "                handlers.append(on_catch_all)\n        if on_handler:\n            handlers.append(on_handler)\n        return handlers")])
+M("C03", "str-codec-cp1252", "beacon.py", "    return null_terminated_bytes(data).decode(\"latin-1\", \"ignore\")", "    return null_terminated_bytes(data).decode(\"cp1252\", \"ignore\")", "C03.R7")
+M("C03", "str-codec-ascii-ignore", "beacon.py", "    return null_terminated_bytes(data).decode(\"latin-1\", \"ignore\")", "    return null_terminated_bytes(data).decode(\"ascii\", \"ignore\")", "C03.R7")
+T("C03", "twin-str-codec-alias", "beacon.py", "    return null_terminated_bytes(data).decode(\"latin-1\", \"ignore\")", "    return null_terminated_bytes(data).decode(\"iso-8859-1\", \"ignore\")")
